@@ -154,7 +154,7 @@ PROPS["C03"] = {
     "assumptions": ["carriage return and leading/trailing whitespace of text values are excluded (the property's own exclusions)"],
 }
 PROPS["C01"] = {
-    "suites": [("comp_sys", "gen_c01")],
+    "suites": [("comp_sys", "gen_c01"), ("comp_sys", "gen_c01_lag")],
     "rule": "whole deployments in one process: 1-3 generated drivers (1-3 groups, all five vector kinds, all switch rules, printf and sexagesimal formats, initially enabled/disabled groups "
             "and vectors, one driver optionally built through an inheritance chain of depth 2-3) + real Router + real server TCP handlers + fragmenting byte pipes (1024 / 1 byte / random) + "
             "real client handlers + Client (control + BLOB connection) and in-process SnoopingClients; random histories of driver operations (assign, set_value, state, enabling of "
@@ -310,35 +310,43 @@ MANIFEST_TEXT = {
         "technique": "Lean 4 theorems over the driver model and the regenerated class table + differential correspondence with re-parse by the real library",
     },
     "C01": {
-        "text": "The deployment is a Lean transition system (lean/Indi/Model/Sys.lean: drivers, router fan-out with BLOB policy, wire = fromXml . toXml, client mirrors; every interleaving of a "
-                "network client's control and BLOB connection). What is kernel-checked today are the links of C01's chain, re-exported in lean/Indi/Properties/C01.lean: a handshake is answered by "
-                "exactly the definitions of the enabled properties (C07_response), every driver operation keeps the driver well-formed (step_wf), every message a driver emits is read back by the "
-                "library's parser unchanged up to normalisation (C07_emitted_valid, C03_roundtrip), the client mirror tracks any definition/update/deletion stream exactly (C15_stream). The composed "
-                "invariant (allSynced is preserved by every Sys.nextOk step) is stated in DESIGN.md and not yet proved, therefore this check is labelled partial on the proof side. "
-                "The tie to the code is full-system: the real deployment is driven through random histories and EVERY observed step must be (a) allowed by the model (Sys.nextOk from the observed "
-                "state) and (b) end in mirrors that Spec.Sys.synced accepts for every driver.",
-        "note": "Partial: the composed convergence theorem is outstanding; operations are separated by quiescence; a peer without BLOBs is exempt from BLOB updates (protocol). "
-                "Trusted: kernel, translator, pipes/quiescence harness, encoders.",
-        "technique": "Lean 4 theorems for each link of the chain + executable deployment model checked step-by-step against the real deployment (refinement check) with the Lean spec as oracle",
+        "text": "Kernel-checked theorems (lean/Indi/Properties/C01.lean, ~4 800 lines of lemmas in Proofs/Sys*.lean) over the Lean deployment model (Model/Sys.lean: drivers, router fan-out with "
+                "BLOB policy, wire = fromXml . toXml over the class table regenerated from /repo, client mirrors): C01_start - once every peer has performed the handshake every peer sees every "
+                "device as it is (Spec.Sys.allSynced); C01_step - allSynced, well-formedness and dict-shaped mirrors are preserved by EVERY operation in scope (assign, set_value, state, enabling "
+                "of properties and groups, client assign+submit, getProperties for everything / a device / a property) under EVERY interleaving of each network peer's control and BLOB connection "
+                "(Sys.nextOk); C01_converges - hence in every deployment reachable by any operation sequence under any schedules. Hypotheses (decidable, each shown necessary by a kernel-checked "
+                "counterexample theorem C01_needs_*): well-formed drivers, distinct device names, distinct enabled element names per property, BLOB values carry a format. "
+                "The model is tied to the code as a refinement check: the real deployment (drivers, Router, server TCP handlers, fragmenting pipes, client handlers, Client with two connections, "
+                "SnoopingClient; drivers optionally built through inheritance chains) is driven through random histories and EVERY observed step must satisfy Sys.nextOk from the observed state "
+                "and end in mirrors that Spec.Sys.synced - the theorem's very predicate - accepts.",
+        "note": "Operations are separated by quiescence in model and harness; without it a BLOB property's definition can be overtaken by a later update on the BLOB connection (known finding "
+                "two-connection-reordering, exhibited by the gen_c01_lag suite). A peer without BLOBs is exempt from BLOB updates (protocol). Element-level enabling publishes nothing and is "
+                "out of scope (as in the property). Trusted: kernel, translator, pipes/quiescence harness, encoders of live drivers and mirrors.",
+        "technique": "Lean 4 invariant proof over a transition system of the whole deployment (all operation sequences, all connection interleavings) + step-by-step refinement check of the real deployment against the model, with the theorem's predicate as oracle",
     },
     "C06": {
-        "text": "Kernel-checked links (lean/Indi/Properties/C06.lean): a client message changes nothing but the elements it validly names and never raises (C12_frame, C12_no_raise), the message the "
-                "driver reads is the one the client built up to normalisation (C03_roundtrip), a number text is parsed to the number it denotes (C10_parse_denotes). The composed statement C06_write "
-                "over Sys.react is stated in DESIGN.md and not yet proved (partial). Tie to the code: real Client.submit -> serializer -> server handler -> framing -> router -> driver on generated "
-                "multi-device deployments; before/after snapshots of every driver are judged by Spec.Sys.c06Holds evaluated in Lean, the step by Sys.nextOk, the writer's mirror by synced.",
-        "note": "Partial: composed theorem outstanding. Switch siblings are free under the rule (C09 decides them). Trusted: kernel, translator, harness.",
-        "technique": "Lean 4 theorems for the links + executable deployment model checked step-by-step against the real deployment with the Lean spec as oracle",
+        "text": "Kernel-checked theorems (lean/Indi/Properties/C06.lean, lemmas in Proofs/Sys06.lean): C06_write / C06_write_for - in a deployment where every peer sees the devices as they are, "
+                "when a peer submits values for some elements of one property (Sys.submitMsg incl. the client-side constructor guards -> wire -> router -> driver), EVERY driver ends up as "
+                "Spec.Sys.c06Holds demands: exactly the named elements of the addressed device take the submitted values (text as it travels, numbers equal to what the text denotes - integers "
+                "exactly, others within binary64 rounding (flIEEE_accurate) -, BLOBs byte for byte), nothing else anywhere changes. Hypotheses writesOk/worldOk06 (decidable; each shown "
+                "necessary by a kernel-checked counterexample C06_needs_*): distinct property names, the property exists, is enabled and writable, each name denotes exactly one enabled element, "
+                "no vetoing Write handler, no refreshing Read handler, values in the element's domain. Tie to the code: real Client.submit -> serializer -> server handler -> framing -> router "
+                "-> driver on generated multi-device deployments; before/after snapshots of every driver judged by c06Holds (the theorem's predicate) evaluated in Lean, the step by Sys.nextOk.",
+        "note": "Switch siblings are free under the rule (C09 decides them). The oracle compares text up to C03's normalisation. Trusted: kernel, translator, harness.",
+        "technique": "Lean 4 theorem over the deployment model (exact effect of a client write through serializer, parser and driver) + refinement check of the real deployment with the theorem's predicate as oracle",
     },
     "C08": {
-        "text": "Kernel-checked (lean/Indi/Properties/C08.lean, Proofs/B64.lean): for EVERY byte string, decode (encode bs) = bs for the model of binascii's base64 (by induction over 3-byte groups), "
-                "the encoding uses only the base64 alphabet (nothing XML escapes or a parser alters) and has the declared length; termination of Buffer.process is a theorem by construction "
-                "(C02/C11: processLoop is a total function). The model codec is tied to binascii by exhaustive short inputs in both directions; the end-to-end path is exercised on the real "
-                "deployment for every length across the read size and the threshold, three fragmentations, three client kinds and both directions, judged by Spec.Sys.c08Holds / c06Holds, with a "
-                "watchdog for hangs and follow-up traffic that must arrive.",
+        "text": "Kernel-checked (lean/Indi/Properties/C08.lean, Proofs/B64.lean, Proofs/Sys08.lean): C08_codec - for EVERY byte string decode (encode bs) = bs for the model of binascii's base64, "
+                "encoding stays inside the base64 alphabet and has the declared length; C08_down / C08_up - the oneBLOB a driver publishes / a client uploads, read after the wire, decodes to "
+                "identical bytes, format and length; C08_publish - when a driver publishes a byte string as the value of a BLOB element, then under EVERY interleaving of the peers' connections "
+                "every peer that enabled BLOBs holds identical bytes and format and every other peer holds exactly what it held before (Spec.Sys.c08Holds). Hypotheses worldOk08 + address names "
+                "a BLOB element, each shown necessary by a kernel-checked counterexample. Termination of Buffer.process is a theorem by construction (C02/C11: processLoop is total). "
+                "Tie to the code: model codec vs binascii exhaustively for short inputs in both directions; the real deployment for every length across the read size and the threshold, three "
+                "fragmentations, three client kinds, both directions, judged by c08Holds / c06Holds, with a watchdog for hangs and follow-up traffic that must arrive.",
         "note": "Known finding (known_findings.txt, key element-over-threshold): an element longer than the 2048-character junk-recovery threshold on a thresholded connection (any upload above "
-                "about 1.5 kB; BLOBs to a client that enabled Also on its control connection) is cut by junk recovery - by design of the threshold (C02 limits itself to it), contrary to C08's "
-                "'regardless of payload size'. Deployment-level theorems C08_down/up/publish are stated in DESIGN.md, in progress. Trusted: kernel, harness.",
-        "technique": "Lean 4 theorem (base64 round trip, induction) + differential codec correspondence + full-deployment runs with watchdog judged by the Lean spec",
+                "about 1.5 kB; BLOBs to a client that enabled Also on its control connection) is cut by junk recovery - the threshold working as designed (C02 limits itself to it), contrary to "
+                "C08's 'regardless of payload size'; the model's transport delivers whole messages (framing is C02/C11's subject). Real sockets are not exercised. Trusted: kernel, harness.",
+        "technique": "Lean 4 theorems (base64 round trip by induction; BLOB publication over the deployment model under all interleavings) + differential codec correspondence + full-deployment runs with watchdog judged by the theorem's predicate",
     },
     "C03": {
         "text": "Kernel-checked theorems (lean/Indi/Properties/C03.lean, 1500 lines of lemmas in Proofs/C03*.lean): for EVERY valid message of every registered kind (Spec.MsgValid.valid over the class "
